@@ -69,6 +69,7 @@ PROPS = {
             {"name": "c03-spellings"},
             {"name": "c03-router"},
             {"name": "c03-live"},
+            {"name": "c03-h2"},
             miri("C03", "c03-spellings"),
         ],
         "assumptions": ASSUME_COMMON,
